@@ -252,6 +252,7 @@ func (rn *runner) endPhase(end string) *simcore.Violation {
 	case "":
 		return nil
 	case "journal":
+		rn.releaseHeld() // iterators do not survive the shutdown
 		rn.mu.Lock()
 		tip := rn.tip()
 		// only the journaled chain survives
